@@ -16,4 +16,9 @@ def run(ctx):
     c10_parser.run_part(ctx)
     rule_b = ctx.coverage.get("rule", "")
     c10_grammar.run_part(ctx)
+    rule_a = ctx.coverage.get("rule", "")
+    # the PROVED round trip (C10/YpRound.v): the formal printer's text goes through the real parser
+    from checks import c10_round
+    c10_round.run_part(ctx)
+    ctx.coverage["rule"] = rule_a + " || round trip: " + str(ctx.coverage.get("rule", ""))
     ctx.coverage["rule"] = "(b) text->AST: %s || (a) AST->grammar: %s" % (rule_b, ctx.coverage.get("rule", ""))
